@@ -327,7 +327,9 @@ def main():
                                    'declared_in': None, 'site': 'public API (replay/twin.rs)', 'line': 0, 'rendered': fl['failing_input']})
     # 5b. thorough tier: Kani harnesses (bounded) for the hoot functions that stay outside Verus
     kani = None
-    if tier == 'thorough':
+    # (also in the quick tier when an obligation failed and no twin produced an input: the harnesses then serve as the
+    #  search for the verifier-side counterexample)
+    if tier == 'thorough' or (violations and not tw['fails']):
         import kani_check
         if any(prop in v['props'] for v in kani_check.HARNESSES.values()):
             try:
@@ -350,6 +352,10 @@ def main():
         elif tw['fails']:
             f0 = tw['fails'][0]
             found_input = {'found': True, 'twin': f0['name'], 'failing_input': f0['failing_input'], 'reproduce': tw['cmd']}
+        elif kani and any(k.get('counterexample_values') for k in kani['fails']):
+            k0 = next(k for k in kani['fails'] if k.get('counterexample_values'))
+            found_input = {'found': True, 'kani_harness': k0['harness'], 'failing_input': 'kani::any() values in order: ' + ', '.join(k0['counterexample_values']),
+                           'concrete_playback_test': k0.get('concrete_playback_test'), 'reproduce': k0['cmd']}
         else:
             found_input = {'found': False, 'note': 'small-scope search over the public API found no failing input',
                            'searched': [{'twin': t['name'], 'evaluations': t['evaluations']} for t in tw['twins']], 'reproduce': tw['cmd']}
